@@ -90,6 +90,7 @@ impl<M: ManagedTypeApi + StorageMapperApi + CallTypeApi> WrappedFarmToken<M> {
 
 /// Merges all wrapped farm tokens under a single one, by also merging the underlying
 /// farm and locked tokens. Treats WrappedLp and LockedToken farms differently.
+/// Also returns the boosted rewards received from the farm, which belong to the original caller.
 pub fn merge_wrapped_farm_tokens<M: CallTypeApi + StorageMapperApi>(
     original_caller: &ManagedAddress<M>,
     factory_address: ManagedAddress<M>,
@@ -97,7 +98,7 @@ pub fn merge_wrapped_farm_tokens<M: CallTypeApi + StorageMapperApi>(
     wrapped_lp_token_mapper: &NonFungibleTokenMapper<M>,
     wrapped_farm_token_mapper: &NonFungibleTokenMapper<M>,
     mut wrapped_farm_tokens: ManagedVec<M, WrappedFarmToken<M>>,
-) -> WrappedFarmToken<M> {
+) -> (WrappedFarmToken<M>, EsdtTokenPayment<M>) {
     let first_item = wrapped_farm_tokens.get(0);
     wrapped_farm_tokens.remove(0);
 
@@ -139,7 +140,7 @@ pub fn merge_wrapped_farm_tokens<M: CallTypeApi + StorageMapperApi>(
         )
     };
 
-    let merged_farm_tokens =
+    let (merged_farm_tokens, boosted_rewards) =
         merge_farm_tokens_through_farm(original_caller, farm_address, farm_tokens_to_merge);
     let new_wrapped_farm_token_attributes = WrappedFarmTokenAttributes {
         farm_token: merged_farm_tokens,
@@ -149,8 +150,10 @@ pub fn merge_wrapped_farm_tokens<M: CallTypeApi + StorageMapperApi>(
     let new_tokens =
         wrapped_farm_token_mapper.nft_create(new_token_amount, &new_wrapped_farm_token_attributes);
 
-    WrappedFarmToken {
+    let new_wrapped_farm_token = WrappedFarmToken {
         payment: new_tokens,
         attributes: new_wrapped_farm_token_attributes,
-    }
+    };
+
+    (new_wrapped_farm_token, boosted_rewards)
 }
